@@ -222,3 +222,31 @@ def mat(dim, lo=1):
                                            j if not isinstance(j, int) else z3.IntVal(j))))
     b.recipe = ('mat', dim)
     return b
+
+
+def mat_dims(rows_expr, cols_dim, lo=1):
+    """real matrix: rows = value of a spec expression, columns = dimension name"""
+    def b(c, label):
+        from .vals import fresh_fun, Mat
+        from .ops import term
+        n = c.eval_expr(rows_expr)
+        n = n if isinstance(n, int) else term(n)
+        m = c.path.new_dim(cols_dim, lo)
+        f = fresh_fun(f'{c.tag}{label}', I, I, R)
+        return Mat(n, m, lambda i, j: SV(f(i if not isinstance(i, int) else z3.IntVal(i),
+                                           j if not isinstance(j, int) else z3.IntVal(j))))
+    b.recipe = ('mat_dims', rows_expr, cols_dim)
+    return b
+
+
+def vec1(kind='real'):
+    """numpy array with exactly one element"""
+    sort = {'real': R, 'int': I, 'bool': B, 'str': StrS}[kind]
+
+    def b(c, label):
+        t = c.sym(label, sort)
+        v = Vec(1, lambda i: SV(t), name=label)
+        v._kind = kind
+        return v
+    b.recipe = ('vec1', kind)
+    return b
